@@ -171,7 +171,7 @@ def gen_systematic(rng, comp="ctxs"):
 
 # the scripts of the two defects DESIGN.md names and of the others found while building the slice
 WITNESS = {
-    # failed load of a newer revision: nobody is the latest revision any more
+    # regression (fixed by 21681e3): failed load of a newer revision; a@1 must be the latest revision again afterwards
     "latest": "ctxs\t0\ta1:-:-:0;a2:h1:-:0\tP 0 - ~\tP 1 - ~",
     # features of an implemented module are flipped in place and stay (and so does to_compile)
     "features": "ctxs\t0\ta1:-:f1,f2/f1:0;b1:a1:-:0\tP 0 - f1\tI a 1 f2\tP 1 - ~",
@@ -250,8 +250,8 @@ def classify(before, after, explicit, was_pending):
             if any(b[3] != a[3] and b[2] == "I" for b, a in zip(bm, am)):
                 return "ctx-features-kept-implemented"
             return "ctx-features-kept-imported"
-        if bm == am and before[2] == after[2] and before[1] != after[1] and before[3] == after[3] and before[4] == after[4]:
-            return "ctx-latest-rev-lost"                # only the answers of ly_ctx_get_module_latest differ
+        # (only the answers of ly_ctx_get_module_latest differ: was the known finding ctx-latest-rev-lost, fixed by /repo
+        # commit 21681e3; if it shows up again it is a plain violation)
     return None
 
 
